@@ -6,6 +6,7 @@ CONSTANTS
   Lims = {0, 1, 2}
   NodeCounts = {1}
   LockKeys = {"owner"}
+  Variants = {}
   FixedKinds = {"conncap", "maplimit", "maplive", "codequota", "mapquota"}
   WithRelease = TRUE
   Emit = FALSE
